@@ -4,6 +4,7 @@ import LocustModel.Lemmas.StoreDurableRun
 import LocustModel.Lemmas.StoreExample
 import LocustModel.Store.Interleave
 import LocustModel.Lemmas.StoreInterleave
+import LocustModel.Lemmas.C13NullFirst
 /-
   C13 — columns may come and go; the catalogue lists each exactly once.  Property theorems only.
   Histories, hypotheses and proof method as in Thm/C08.lean (invariant `Durable`; its clause `LogCat` says that
@@ -89,6 +90,32 @@ example : ∃ w, ParamsOk Ex.P0 ∧ HistWF Ex.opsA ∧ run Ex.P0 Ex.opsA (initWo
     (content w .metaTables).map listedTables =
       .ok [.tname (.user 1), .tname (.metaCols 1), .tname (.user 2), .tname (.metaCols 2)] ∧ w.lossy = false :=
   ⟨_, Ex.P0_ok, Ex.opsA_wf, rfl, rfl, rfl, rfl, rfl⟩
+
+/-- A column is catalogued by being NAMED, not by carrying a value (`ingest_efficient` hands every key of the table buffer
+    to `new_column_names`, `ColumnData::Empty` included, and `ingest_homogeneous` records the same keys): if some returned
+    call named column `c` for table `n` — in particular in a batch whose cells for `c` are all NULL, also when that is the
+    FIRST batch that names `c` — then after the whole history (any flushes, compactions, restarts, replay orders) the
+    catalogue of `n` lists `c` (once: `L.Nodup`), and column `c` of `n` reads exactly the cells the calls gave, the values of
+    later batches included. -/
+theorem C13_valueless_column_catalogued (P : Params ν κ) (hP : ParamsOk P) (ops : List (Op ν κ)) (hwf : HistWF ops)
+    (w : World ν κ) (hrun : run P ops (initWorld P) = .ok w) (n : ν) (c : CName ν) (b : Batch ν κ)
+    (hb : b ∈ acked ops (.user n)) (hc : c ∈ b.names) :
+    (∃ (bs : List (Batch ν κ)) (L : List (CName ν)), content w (.metaCols n) = .ok bs ∧
+        listedColumns bs = L.map Cell.cname ∧ L.Nodup ∧ c ∈ L) ∧
+    (∃ us, content w (.user n) = .ok us ∧ readColumn c us = readColumn c (acked ops (.user n))) := by
+  constructor
+  · obtain ⟨bs, L, h1, h2, h3, h4⟩ := (C13_catalogue_exact P hP ops hwf w hrun).2 n
+    exact ⟨bs, L, h1, h2, h3, (h4 c).mpr (List.mem_flatMap.mpr ⟨b, hb, hc⟩)⟩
+  · obtain ⟨pre, hd⟩ := durable_run P hP ops hwf w hrun
+    exact ⟨_, hd.content (.user n), by rw [run_log_user_init P n ops w hrun]⟩
+
+-- non-vacuity: column 9 of table 1 first arrives as two NULLs (`Ex.n1`), gets the value 7 after a flush and a restart, is
+-- not mentioned by the last batch, and goes through a compaction and two more restarts: listed once, value kept
+example : ∃ w, ParamsOk Ex.P0 ∧ HistWF Ex.opsN ∧ run Ex.P0 Ex.opsN (initWorld Ex.P0) = .ok w ∧
+    Ex.n1.map (fun sh => colCells (.user 9) sh.2) = [[.null, .null]] ∧
+    (content w (.metaCols 1)).map listedColumns = .ok [.cname (.user 7), .cname (.user 9)] ∧
+    (content w (.user 1)).map (readColumn (.user 9)) = .ok [.null, .null, .val 7, .null] ∧ w.lossy = false :=
+  ⟨_, Ex.P0_ok, Ex.opsN_wf, rfl, rfl, rfl, rfl, rfl⟩
 
 /-- The same for INTERLEAVED histories (`Store/Interleave.lean`: a flush in its real steps, ingestion calls between any
     two of them), at EVERY state — also in the middle of a flush: `_meta_tables` lists every table ever ingested (and
